@@ -72,6 +72,18 @@ def oracle(ctx, widen=1):
         ub2, vals, hkl, P = r
         hc = HklCalculation(ub2, Constraints(vals))
         S.run_impl("full", hc, hkl, 1.0)
+        # the identical request once more on the same object (the caller has meanwhile moved the positions it was handed — run_impl does that):
+        # whatever comes back must honour the constraints as the first answer did
+        again = S.run_impl("full", hc, hkl, 1.0)
+        nq += 1
+        if again[0] == "ok":
+            n0, s0 = PL.vectors(ub2)
+            for pos, va in again[1]:
+                bad = PL.honours(tuple(vals), vals, pos, n0, s0)
+                if bad:
+                    ctx.violation(f"mode {sorted(vals)}: the same request repeated on the same calculator returned {tuple(round(x, 5) for x in pos)} where {bad[0]}",
+                                  {"constraints": vals, "hkl": list(hkl), "change": "none (repeat)"}, {"kind": "constraint-not-honoured-after-change", "change": "repeat"})
+                    break
         change = ctx.rng.choice(["n_hkl", "n_phi", "surf_nhkl", "surf_nphi", "set_u", "constraint"])
         with quiet():
             if change in ("n_hkl", "n_phi", "surf_nhkl", "surf_nphi"):
